@@ -347,6 +347,11 @@ func runGwHistory(rng *rand.Rand, w *Writer, suite string, malformed bool) {
 	noChecks := rng.Intn(5) == 0
 	gw := newGwWorld(noChecks, 3)
 	defer gw.close()
+	defer func() {
+		if gwDegraded {
+			w.Count("gw.barriers-not-answered-to-their-sockets")
+		}
+	}()
 	euis := []uint64{genEUI(rng), genEUI(rng), genEUI(rng)}
 	var ports []string
 	for i, c := range gw.socks {
